@@ -82,7 +82,7 @@ func genDsd() {
 		if _, ok := consts[c]; !ok {
 			die("dsd: %s initialised with unknown constant %s", dv, c)
 		}
-		fmt.Fprintf(&sb, "def %s : Nat := %s\n", lowerFirst(dv), c)
+		fmt.Fprintf(&sb, "def %s : Nat := %s\n", dsdLowerFirst(dv), c)
 	}
 	sb.WriteString("\n")
 
@@ -93,7 +93,7 @@ func genDsd() {
 			die("%s: unexpected shape", fn)
 		}
 		sw, ok := fd.Body.List[0].(*ast.SwitchStmt)
-		if !ok || sw.Init != nil || !isIdent(sw.Tag, "format") {
+		if !ok || sw.Init != nil || !dsdIsIdent(sw.Tag, "format") {
 			die("%s: expected `switch format`", fn)
 		}
 		var same, auto []string
@@ -108,20 +108,20 @@ func genDsd() {
 				die("%s: case must return two values", fn)
 			}
 			if cc.List == nil {
-				if !isLit(ret.Results[0], "0") || !isIdent(ret.Results[1], "false") {
+				if !isLit(ret.Results[0], "0") || !dsdIsIdent(ret.Results[1], "false") {
 					die("%s: default must return 0, false", fn)
 				}
 				haveDefault = true
 				continue
 			}
-			if !isIdent(ret.Results[1], "true") {
+			if !dsdIsIdent(ret.Results[1], "true") {
 				die("%s: non-default case must return ..., true", fn)
 			}
 			var dst *[]string
 			switch {
-			case isIdent(ret.Results[0], "format"):
+			case dsdIsIdent(ret.Results[0], "format"):
 				dst = &same
-			case isIdent(ret.Results[0], dflt):
+			case dsdIsIdent(ret.Results[0], dflt):
 				dst = &auto
 			default:
 				die("%s: case returns neither format nor %s", fn, dflt)
@@ -162,7 +162,7 @@ func genDsd() {
 				sw = s
 			}
 		}
-		if sw == nil || sw.Init != nil || !isIdent(sw.Tag, "format") {
+		if sw == nil || sw.Init != nil || !dsdIsIdent(sw.Tag, "format") {
 			die("%s: expected exactly one `switch format`", fn)
 		}
 		var rows []string
@@ -232,7 +232,7 @@ func genDsd() {
 			found := false
 			ast.Inspect(&ast.BlockStmt{List: cc.Body}, func(n ast.Node) bool {
 				if ta, ok := n.(*ast.TypeAssertExpr); ok {
-					if at, ok := ta.Type.(*ast.ArrayType); ok && at.Len == nil && isIdent(at.Elt, "byte") {
+					if at, ok := ta.Type.(*ast.ArrayType); ok && at.Len == nil && dsdIsIdent(at.Elt, "byte") {
 						found = true
 					}
 				}
@@ -257,7 +257,7 @@ func genDsd() {
 				sw = s
 			}
 		}
-		if sw == nil || sw.Init != nil || !isIdent(sw.Tag, "compression") {
+		if sw == nil || sw.Init != nil || !dsdIsIdent(sw.Tag, "compression") {
 			die("%s: expected exactly one `switch compression`", fn)
 		}
 		var labels []string
@@ -270,7 +270,7 @@ func genDsd() {
 			}
 			usesGzip := false
 			ast.Inspect(&ast.BlockStmt{List: cc.Body}, func(n ast.Node) bool {
-				if sel, ok := n.(*ast.SelectorExpr); ok && isIdent(sel.X, "gzip") {
+				if sel, ok := n.(*ast.SelectorExpr); ok && dsdIsIdent(sel.X, "gzip") {
 					usesGzip = true
 				}
 				return true
@@ -333,7 +333,7 @@ func genDsd() {
 		if !ok || consts[id.Name] == "" {
 			die("FormatToMimeType: key is not a format constant")
 		}
-		rows = append(rows, row{id.Name, strLit(kv.Value)})
+		rows = append(rows, row{id.Name, dsdStrLit(kv.Value)})
 	}
 	sort.Slice(rows, func(i, j int) bool { return atoi(consts[rows[i].k]) < atoi(consts[rows[j].k]) })
 	sb.WriteString("/-- `FormatToMimeType` (strings as lists of Unicode code points), sorted by format id. -/\n")
@@ -352,7 +352,7 @@ func genDsd() {
 		if !ok || consts[id.Name] == "" {
 			die("MimeTypeToFormat: value is not a format constant")
 		}
-		rows = append(rows, row{strLit(kv.Key), id.Name})
+		rows = append(rows, row{dsdStrLit(kv.Key), id.Name})
 	}
 	sort.Slice(rows, func(i, j int) bool { return rows[i].k < rows[j].k })
 	for i := 1; i < len(rows); i++ {
@@ -370,9 +370,9 @@ func genDsd() {
 	write("Dsd.lean", sb.String())
 }
 
-func lowerFirst(s string) string { return strings.ToLower(s[:1]) + s[1:] }
+func dsdLowerFirst(s string) string { return strings.ToLower(s[:1]) + s[1:] }
 
-func isIdent(e ast.Expr, name string) bool {
+func dsdIsIdent(e ast.Expr, name string) bool {
 	id, ok := e.(*ast.Ident)
 	return ok && id.Name == name
 }
@@ -391,7 +391,7 @@ func returnsIdent(cc *ast.CaseClause, name string) bool {
 	if !ok || len(ret.Results) == 0 {
 		return false
 	}
-	return isIdent(ret.Results[len(ret.Results)-1], name)
+	return dsdIsIdent(ret.Results[len(ret.Results)-1], name)
 }
 
 func allEqual(s []string) bool {
@@ -403,7 +403,7 @@ func allEqual(s []string) bool {
 	return true
 }
 
-func strLit(e ast.Expr) string {
+func dsdStrLit(e ast.Expr) string {
 	l, ok := e.(*ast.BasicLit)
 	if !ok || l.Kind != token.STRING {
 		die("expected a string literal")
